@@ -265,7 +265,6 @@ func Harness_C14_handle_matches_byte_array() {
 	vm.Assert("C14.locks_free", v.Env.LocksFree())
 }
 
-
 // Harness_C14_read_seek_read: the sequence a media player or an archive reader performs on a read-only
 // handle: read some bytes, seek (any whence, forwards or backwards), read again.
 func Harness_C14_read_seek_read() {
